@@ -446,6 +446,10 @@ add("C14", "fixed", "path:raises-LiquidSyntaxError", "a dotted property that spe
 add("C26", "fixed", "tag:raises-TranslationValueError:placeholder", "a message variable whose name ends in a question mark ({{ ok? }} in the tag, %(ok?)s in a filter message) was not found by the placeholder pattern: TranslationValueError",
     [{"kind": "tag", "msg": "{{ ok? }}", "body": "{{ ok? }}", "async": False, "vars": {"ok?": "yes"}}], "f5edd61")
 
+add("C25", "fixed", "chain:sort-map-compact-join:raises-FilterArgumentError", "sort / sort_natural with a key raised when some items lack the property and the others hold numbers under it (a string sentinel "
+    "was compared with them) although such items are documented to go last; compact kept the null object that map puts in for a missing property (the reference's own map | compact example)",
+    [{"kind": "chain", "chain": "sort-last-has-no-key", "l": V.enc([{"k": 2}, {}, {"k": 1}]), "k": "k", "async": False}, {"kind": "chain", "chain": "map-compact-size", "l": V.enc([{"k": 2}, {}, {"k": 1}]), "k": "k", "async": False}], "8a73529")
+
 if __name__ == "__main__":
     # further entries are appended by tools/mkfindings.py from triaged replay files and kept in findings_extra.json
     extra_path = os.path.join(VERIF, "tools", "findings_extra.json")
